@@ -485,6 +485,31 @@ Theorem C16_gully_alt_nonneg : forall (p : gully_params (T := R)) (qf yr ar al :
   0 <= g_generatedFine o /\ 0 <= g_generatedCoarse o /\ 0 <= g_fineLoad o /\ 0 <= g_coarseLoad o.
 Proof. exact gully_alt_row_nonneg. Qed.
 
+Example C16_gully_hyps_satisfiable :
+  let p := gully_example_params in
+  (0 <= g_percentFine p <= 100 /\ 0 <= g_averageGullyActivityFactor p /\ 0 <= g_managementPracticeFactor p
+   /\ 0 <= g_annualAverageSedimentSupply p /\ 0 < g_timestepInSeconds p /\ 0 <= g_sdrFine p /\ 0 <= g_sdrCoarse p
+   /\ 0 < g_area p)
+  /\ (let o := sednet_gully_row gully_load_orig p (1, 1995, 500, 0) in
+      g_generatedFine o = 50 /\ g_generatedCoarse o = 50 /\ g_fineLoad o = 50 /\ g_coarseLoad o = 25)
+  /\ (let o := sednet_gully_row gully_load_derm p (1, 1995, 86400000, 4000) in
+      g_generatedFine o = 2 /\ g_generatedCoarse o = 2 /\ g_fineLoad o = 2 /\ g_coarseLoad o = 1).
+Proof. exact gully_hyps_satisfiable. Qed.
+
+Example C16_conc_load_example : conc_load 100 2 = 2 / 10 /\ 0 <= (2 : R) /\ 0 <= (100 : R).
+Proof. exact conc_load_example. Qed.
+
+Example C16_particulate_nutrients_example :
+  let p := {| pn_area := 1; pn_nutSurfSoilConc := 1/1000; pn_hillDeliveryRatio := 10; pn_NER := 2;
+              pn_nutSubSoilConc := 1/1000; pn_NER_gully := 1; pn_gullyDeliveryRatio := 100;
+              pn_nutrientDWC := 1; pn_doCreams := 0 |} in
+  pn_hillslope (particulate_nutrients_row p (3, 2, 1, 1, 1)) = 1 / 1000.
+Proof. exact particulate_nutrients_hyps_satisfiable. Qed.
+
+Example C16_depth_to_rate_example : exists o,
+  depth_to_rate_kernel [86400; 1000000] [] [[864 / 10]] = Some ([[o]], []) /\ o = 1.
+Proof. exact depth_to_rate_example. Qed.
+
 (** * Assumptions of every statement above (union; the individual core theorems are also printed
     where they are stated).  Only the standard-library axioms of Coq.Reals appear. *)
 Definition C16_all := (C16_fixed_partition_sum,
@@ -546,5 +571,9 @@ Definition C16_all := (C16_fixed_partition_sum,
   C16_gully_orig_zero_supply,
   C16_gully_alt_zero_supply,
   C16_gully_orig_nonneg,
-  C16_gully_alt_nonneg).
+  C16_gully_alt_nonneg,
+  C16_gully_hyps_satisfiable,
+  C16_conc_load_example,
+  C16_particulate_nutrients_example,
+  C16_depth_to_rate_example).
 Print Assumptions C16_all.
